@@ -6,7 +6,7 @@ Afterwards: SEED_DIR=... SEED_SUFFIX=N python3 tools/confirm_seeds.py ; git -C /
 import json, os, re, subprocess
 
 V = os.path.dirname(os.path.dirname(os.path.abspath(__file__)))
-SEED_DIR = os.environ.get("SEED_DIR", "/tmp/seed5")
+SEED_DIR = os.environ.get("SEED_DIR", "/tmp/seed7")
 
 TMPL = '''You are helping test a verification tool by producing realistic *seeded defects* for a Python library, pyrtcm (a pure-Python RTCM3 GNSS protocol parser). You work ONLY inside your own scratch git worktree of the library at __WT__ (source under __WT__/src/pyrtcm, tests under __WT__/tests). Do not read or touch /repo, /verif or any other directory; do not commit anything.
 
@@ -17,14 +17,14 @@ __TEXT__
 Earlier rounds already produced the changes listed below for this property. Yours must be DIFFERENT in kind - not variations of them:
 __PREV__
 
-This round, prefer these kinds of change (they are the ones that slip past reviewers):
-  * a "helpful" robustness or convenience addition that changes behaviour for some legal input: an extra validation that rejects a legal value, a normalisation (strip, lower, clamp, default substitution), a fallback that hides a failure, a retry, a silent conversion between types (bytes/bytearray/str/int/bool);
-  * a change in ARITHMETIC on bit offsets, lengths or counts that is invisible for the sizes the test data contains (a mask one bit short, a width taken from the wrong field, integer vs float division, a shift by a computed amount that differs only for large values);
-  * a change in the ORDER in which things are read, consumed or reported (bytes taken from the stream before a check instead of after, an attribute set before the one it depends on, a handler called before the state is updated);
-  * a change that makes the result depend on something it must not depend on: the type (not value) of an argument, the identity of an object, dict/set iteration order, the locale or default encoding, an environment variable, time;
-  * an interaction between TWO features (an option with a message type, an error mode with a protocol, an encoding flag with a buffer size) where each feature alone still works;
-  * a change confined to `__str__`/`__repr__`/logging/error-message construction that nevertheless alters behaviour (an exception raised while building a message, evaluation of a property with side effects).
-Avoid caches and memoisation, wholesale rewrites and new loops (already covered).
+This round, prefer these kinds of change (they are the ones that slip past reviewers AND past ordinary testing):
+  * TWO COOPERATING SITES that each look fine alone (a helper whose contract is loosened slightly and a caller that now relies on the old behaviour; a table entry and the code that interprets it; a constructor default and a later use);
+  * a MULTI-STEP SEQUENCE: state carried between calls on the same object (a reader after an exception or after end of data, a socket wrapper after a timeout or a short receive, a message after a refused assignment, a second iteration of the same reader) where every single call still behaves;
+  * a FAULT AT A PARTICULAR POINT: a timeout, short read, empty read or end of data that falls exactly between two specific bytes of a frame, header, size line or trailer;
+  * BOUNDARY VALUES the test data never contains: largest or zero repeat counts, all-ones or all-zero masks, sub-type 255, message number 0 / 4095, 1023-byte payloads, the last entry of a lookup table, the most negative two's-complement value, sign-magnitude minus zero;
+  * a change in the DEFINITION TABLES (rtcmtypes_*.py) rather than in code: a field replaced by another field of the same width but different type or resolution, a repeat-count key pointing at a different earlier field, a conditional group keyed on the wrong value, for a message type or branch the tests never decode;
+  * PYTHON-SEMANTICS TRAPS: operator precedence, `is` vs `==`, truthiness of 0 / empty bytes / empty dict, `or`-defaults, bytes vs int indexing, negative slice indices, `%`/`//` on negatives, chained comparisons, late-binding, `except` clause order, generator exhaustion.
+Avoid caches and memoisation, wholesale rewrites, new loops, and changes that merely rename things (already covered).
 
 Task: produce TWO independent, different changes to the library source (files under __WT__/src/pyrtcm only; call them mutA and mutB) such that each one, applied alone:
   1. breaks the property above (for some input / schedule / history the property quantifies over),
